@@ -130,10 +130,18 @@ def run(chk):
             body_nodes = {g.node_for(n) for n in ast.walk(loop) if n is not loop and g.node_for(n)}
             body_nodes.discard(h)
             sinks = set()
+            from . import treefacts
+            wrappers = treefacts.attach_wrappers(ix, 'parser')
             for n in ast.walk(loop):
                 if isinstance(n, ast.Call) and isinstance(n.func, ast.Attribute) and n.func.attr in ('append', 'add', 'extend'):
                     recv_names = names_in(n.func.value)
                     if any(names_in(a) & d for a in n.args) and not (recv_names & {piece}):
+                        nid = g.node_for(n)
+                        if nid:
+                            sinks.add(nid)
+                elif isinstance(n, ast.Call) and isinstance(n.func, ast.Name) and n.func.id in wrappers:
+                    # a helper that attaches its argument on all its paths (wrapper summary)
+                    if any(k < len(n.args) and names_in(n.args[k]) & d for k in wrappers[n.func.id]):
                         nid = g.node_for(n)
                         if nid:
                             sinks.add(nid)
